@@ -6,7 +6,7 @@ import json, os, re, shutil, subprocess, sys, tempfile
 from pathlib import Path
 
 VERIF = Path(__file__).resolve().parent
-name, src, pid = sys.argv[1], Path(sys.argv[2]), sys.argv[3]
+name, src, pid = sys.argv[1], Path(sys.argv[2]).resolve(), sys.argv[3]
 logs = [Path(p) for p in sys.argv[4:]] or sorted((VERIF / 'seeded' / 'confirm_logs').glob('*.log'))
 res_line = ''
 for lg in logs:
